@@ -146,7 +146,7 @@ pub fn eval(c: &Case, st: &mut Stats, excuse_kf: bool) -> Result<Verdict, String
     let mut partial_match = false;
     for op in &c.continuation {
         // (read-only calls, rebuilds and ghost operations are not part of a continuation)
-        if matches!(op, Op::GhostAdd { .. } | Op::GhostRemove { .. } | Op::Read(_) | Op::Rebuild(_)) {
+        if matches!(op, Op::GhostAdd { .. } | Op::GhostRemove { .. } | Op::Read(_) | Op::Rebuild(_) | Op::Sibling { .. }) {
             continue;
         }
         let r = it.apply(op);
